@@ -19,6 +19,7 @@ import (
 	"net/http"
 	"net/http/httptrace"
 	"net/textproto"
+	"runtime"
 	"sort"
 	"strconv"
 	"strings"
@@ -130,7 +131,8 @@ type H3Scenario struct {
 	Faults  []WFault      `json:"faults"`
 	Faulty  bool          `json:"faulty"` // scenario class: network faults enabled (failures allowed, wrong data never)
 	Opt     H3Opts        `json:"opt"`
-	Raw     bool          `json:"raw,omitempty"` // raw peer class: Streams are executed instead of Reqs
+	Raw     bool          `json:"raw,omitempty"`     // raw peer class: a scripted client executes Streams against http3.Server
+	RawSrv  bool          `json:"raw_srv,omitempty"` // mirror image: a scripted server answers http3.Transport with Streams
 	Reqs    []H3Req       `json:"reqs,omitempty"`
 	Streams []H3RawStream `json:"streams,omitempty"`
 }
@@ -295,10 +297,15 @@ func genH3(seed uint64, tier string) KScenario {
 	if w := sc.Cfg.Win[0]; w > 0 {
 		maxBody = int(min(w, sc.Cfg.Win[2])) * 60
 	}
-	sc.Raw = r.P(0.25)
-	if sc.Raw {
+	switch c := r.N(100); {
+	case c < 22:
+		sc.Raw = true
 		o.IdleMS = 0 // the raw peer's waiting periods would run into it
 		genH3Raw(r, sc, tier)
+		return sc
+	case c < 32:
+		sc.RawSrv = true
+		genH3RawSrv(r, sc, tier)
 		return sc
 	}
 	n := r.Pick(1, 1, 2, 3, 4, 6, 10)
@@ -1582,10 +1589,24 @@ func runH3(t *testing.T, ksc KScenario, res *KResult) {
 		srv.AdditionalSettings = map[uint64]uint64{0x4d44: 7, 0x1f*5 + 0x21: 99}
 	}
 	x.srv = srv
+	if sc.RawSrv {
+		rs := &h3RawState{allDone: make(chan struct{})}
+		for range sc.Streams {
+			rs.obs = append(rs.obs, &h3RawObs{})
+			rs.cli = append(rs.cli, &h3Obs{})
+			rs.srvDone = append(rs.srvDone, make(chan struct{}))
+			rs.cliDone = append(rs.cliDone, make(chan struct{}))
+		}
+		x.raw = rs
+	}
 	var swg sync.WaitGroup
 	swg.Add(1)
 	go func() {
 		defer swg.Done()
+		if sc.RawSrv {
+			x.rawServer(ln)
+			return
+		}
 		if o.Serve == 0 {
 			srv.ServeListener(ln)
 			return
@@ -1657,9 +1678,12 @@ func runH3(t *testing.T, ksc KScenario, res *KResult) {
 		}
 		return c, err
 	}
-	if sc.Raw {
+	switch {
+	case sc.Raw:
 		x.runRaw(dial)
-	} else {
+	case sc.RawSrv:
+		x.runRawSrvClient(dial, discard)
+	default:
 		x.runTransport(dial, discard)
 	}
 	cause := x.connCauses()
@@ -1682,9 +1706,12 @@ func runH3(t *testing.T, ksc KScenario, res *KResult) {
 	time.Sleep(50 * time.Millisecond)
 
 	// ---- verdicts
-	if sc.Raw {
+	switch {
+	case sc.Raw:
 		x.judgeRaw()
-	} else {
+	case sc.RawSrv:
+		x.judgeRawSrv(cause)
+	default:
 		x.judgeTransport(cause)
 	}
 	for _, p := range w.Tap.All {
@@ -1699,6 +1726,16 @@ func runH3(t *testing.T, ksc KScenario, res *KResult) {
 		}
 	}
 	x.verdict()
+	if res.KeepLog {
+		// verbose replays list the goroutines that are still around (leak hunting)
+		buf := make([]byte, 1<<20)
+		buf = buf[:runtime.Stack(buf, true)]
+		for _, g := range strings.Split(string(buf), "\n\n") {
+			if strings.Contains(g, "synctest bubble") && !strings.Contains(g, "runH3") && !strings.Contains(g, "World).drive") {
+				res.Logf("goroutine still alive at the end of the run:\n%s", g)
+			}
+		}
+	}
 }
 
 // connCauses: why the connections ended, sampled before the harness closes them itself
@@ -2130,15 +2167,15 @@ func (x *h3Run) judgeConn(cause [2]error, incomplete bool) {
 			}
 		}
 		var ae *quic.ApplicationError
-		if errors.As(err, &ae) && !sc.Raw {
+		if errors.As(err, &ae) && !sc.Raw && !sc.RawSrv {
 			x.flag(3, "HTTP/3 connection error between conformant endpoints: "+h3ErrName(uint64(ae.ErrorCode)), "side %d: %v", side, err)
 			continue
 		}
-		if x.clean() && !sc.Raw {
+		if x.clean() && !sc.Raw && !sc.RawSrv {
 			x.flag(4, "connection failed in a fault-free run: "+h3ErrClass(err), "side %d: %v", side, err)
 		}
 	}
-	if sc.Raw {
+	if sc.Raw || sc.RawSrv {
 		return
 	}
 	if incomplete && x.clean() {
@@ -2287,12 +2324,17 @@ func (x *h3Run) rawBuild(idx int, st *H3RawStream) ([]byte, []h3Span) {
 		switch f.K {
 		case "headers":
 			t = 1
-			if nHeaders == 0 {
+			switch {
+			case x.sc.RawSrv && (f.V == 10 || nHeaders == 0):
+				pl = h3QPACK(x.rawRespFields(idx, st, f.V))
+			case nHeaders == 0:
 				pl = h3QPACK(x.rawReqFields(idx, st, f.V))
-			} else {
+			default:
 				pl = h3QPACK(h3RawTrailer)
 			}
-			nHeaders++
+			if f.V != 10 {
+				nHeaders++
+			}
 		case "trailers":
 			t, pl = 1, h3QPACK(h3RawTrailer)
 			nHeaders++
@@ -2546,6 +2588,11 @@ type h3RawState struct {
 	pingRan bool
 	pingErr string
 	cause   [2]error
+	// mirror class
+	cli     []*h3Obs
+	srvDone []chan struct{}
+	cliDone []chan struct{}
+	allDone chan struct{}
 }
 
 func (x *h3Run) rawWait() time.Duration {
@@ -3244,5 +3291,682 @@ func genH3Raw(r *KRng, sc *H3Scenario, tier string) {
 			at = len(sc.Streams)
 		}
 		sc.Streams = append(sc.Streams[:at], append([]H3RawStream{st}, sc.Streams[at:]...)...)
+	}
+}
+
+// ---------------------------------------------------------------- mirror image: scripted server against http3.Transport
+
+func (x *h3Run) rawRespFields(idx int, st *H3RawStream, v int) [][2]string {
+	if v == 10 {
+		return [][2]string{{":status", "103"}, {"link", "</a.css>; rel=preload"}}
+	}
+	f := [][2]string{{":status", "200"}, {"x-raw-srv", strconv.Itoa(idx)}, {"content-type", "application/x-raw"}}
+	switch v {
+	case 3:
+		f = f[1:]
+	case 7:
+		f = append(f, [2]string{":status", "200"})
+	case 9:
+		f = append(f, [2]string{":method", "GET"})
+	}
+	for _, kv := range st.Hdr {
+		f = append(f, [2]string{strings.ToLower(kv.K), h3Val(kv)})
+	}
+	total := h3RawDataLen(st)
+	switch st.CLDecl {
+	case 1:
+		f = append(f, [2]string{"content-length", strconv.Itoa(total)})
+	case 2:
+		f = append(f, [2]string{"content-length", strconv.Itoa(total + 7)})
+	case 3:
+		f = append(f, [2]string{"content-length", strconv.Itoa(max(total-1, 0))})
+	}
+	switch v {
+	case 1:
+		f = append(f, [2]string{"X-Upper", "1"})
+	case 2:
+		f = append(f, [2]string{":status", "200"})
+		f[0] = [2]string{"x-early", "1"}
+	case 4:
+		f = append(f, [2]string{"connection", "close"})
+	}
+	return f
+}
+
+// what RFC 9114 requires of a client that receives the scripted response
+func (x *h3Run) rawExpectResp(idx int, st *H3RawStream, spans []h3Span, cutoff int) h3RawExpect {
+	seenH, seenT := false, false
+	body, ninfo, bad := 0, 0, 0
+	with := func(e h3RawExpect) h3RawExpect {
+		e.bodyLen = body
+		e.handler = ninfo
+		return e
+	}
+	for _, sp := range spans {
+		f := sp.f
+		if sp.start >= cutoff {
+			break
+		}
+		if sp.hdrEnd > cutoff {
+			if st.End == "fin" {
+				return with(h3Conn("frame header truncated by the end of the stream", 0x106))
+			}
+			return with(h3RawExpect{want: "any"})
+		}
+		switch f.K {
+		case "unk", "push_promise":
+		case "reserved":
+			return with(h3Conn("reserved (HTTP/2) frame type on a response stream", 0x105))
+		case "settings", "goaway", "cancel_push", "max_push_id":
+			return with(h3Conn(strings.ToUpper(f.K)+" frame on a response stream", 0x105))
+		case "data":
+			if !seenH {
+				return with(h3Conn("DATA frame before HEADERS", 0x105))
+			}
+			if seenT {
+				return with(h3Conn("DATA frame after the trailer section", 0x105))
+			}
+		case "headers", "trailers":
+			if seenT {
+				return with(h3Conn("HEADERS frame after the trailer section", 0x105))
+			}
+		}
+		if sp.end > cutoff {
+			if f.K == "data" {
+				body += cutoff - sp.hdrEnd
+			}
+			if st.End == "fin" {
+				k := strings.ToUpper(f.K)
+				if f.K == "unk" {
+					k = "unknown"
+				}
+				return with(h3Conn(k+" frame truncated by the end of the stream", 0x106))
+			}
+			return with(h3RawExpect{want: "any"})
+		}
+		switch f.K {
+		case "data":
+			body += f.N
+		case "headers", "trailers":
+			switch {
+			case !seenH && f.V == 10:
+				ninfo++
+			case !seenH:
+				seenH, bad = true, f.V
+			default:
+				seenT = true
+			}
+		}
+		if bad != 0 {
+			return with(h3RawExpect{label: fmt.Sprintf("malformed response header section (variant %d)", bad), want: "stream", codes: []uint64{0x10e}})
+		}
+	}
+	if st.End != "fin" || st.Split == -1 {
+		return with(h3RawExpect{want: "any"})
+	}
+	if !seenH {
+		return with(h3RawExpect{label: "response stream finished without a final HEADERS frame", want: "cerr"})
+	}
+	if st.CLDecl == 2 {
+		return with(h3RawExpect{label: "content-length larger than the sum of the DATA frames", want: "cerr"})
+	}
+	if st.CLDecl == 3 && body > 0 {
+		return with(h3RawExpect{label: "content-length smaller than the sum of the DATA frames", want: "cerr"})
+	}
+	return with(h3RawExpect{want: "ok", complete: true, trailers: seenT})
+}
+
+func (x *h3Run) rawExpectSrvUni(st *H3RawStream, spans []h3Span, cutoff int, cs *h3RawConnState) h3RawExpect {
+	if cutoff < quicvarint.Len(st.UType) {
+		return h3RawExpect{want: "any"}
+	}
+	switch st.UType {
+	case 1:
+		return h3Conn("push stream although the client never sent MAX_PUSH_ID", 0x108)
+	case 2:
+		if cs.qenc {
+			return h3Conn("second QPACK encoder stream", 0x103)
+		}
+		cs.qenc = true
+		return h3RawExpect{want: "ok"}
+	case 3:
+		if cs.qdec {
+			return h3Conn("second QPACK decoder stream", 0x103)
+		}
+		cs.qdec = true
+		return h3RawExpect{want: "ok"}
+	case 0:
+	default:
+		return h3RawExpect{want: "ok"}
+	}
+	if cs.ctrl {
+		return h3Conn("second control stream", 0x103)
+	}
+	cs.ctrl = true
+	first := true
+	for _, sp := range spans {
+		f := sp.f
+		if sp.start >= cutoff {
+			break
+		}
+		if sp.hdrEnd > cutoff || sp.end > cutoff {
+			if st.End == "fin" || st.End == "reset" {
+				return h3Conn("control stream closed", 0x104, 0x106)
+			}
+			return h3RawExpect{want: "any"}
+		}
+		if first {
+			first = false
+			if f.K != "settings" {
+				return h3Conn("control stream does not start with SETTINGS", 0x10a)
+			}
+			if f.V == 1 {
+				return h3Conn("SETTINGS with a reserved HTTP/2 setting identifier", 0x109)
+			}
+			if f.V == 3 {
+				return h3RawExpect{want: "any"}
+			}
+			continue
+		}
+		switch f.K {
+		case "settings":
+			return h3Conn("second SETTINGS frame on the control stream", 0x105)
+		case "data", "headers", "trailers", "push_promise":
+			return h3Conn(strings.ToUpper(f.K)+" frame on the control stream", 0x105)
+		case "max_push_id":
+			return h3Conn("MAX_PUSH_ID frame sent by a server", 0x105)
+		case "reserved":
+			return h3Conn("reserved (HTTP/2) frame type on the control stream", 0x105)
+		case "goaway":
+			return h3RawExpect{want: "any"}
+		}
+	}
+	if st.End == "fin" || st.End == "reset" {
+		return h3Conn("control stream closed", 0x104)
+	}
+	return h3RawExpect{want: "ok"}
+}
+
+// rawServer: the scripted server. It serves the first connection only.
+func (x *h3Run) rawServer(ln *h3Listener) {
+	sc, rs := x.sc, x.raw
+	conn, err := ln.Accept(x.runCtx)
+	if err != nil {
+		for _, ch := range rs.srvDone {
+			close(ch)
+		}
+		return
+	}
+	x.mu.Lock()
+	rs.conn = conn
+	x.mu.Unlock()
+	var wg sync.WaitGroup
+	defer wg.Wait()
+	wg.Add(1)
+	go func() {
+		defer wg.Done()
+		for {
+			s, err := conn.AcceptUniStream(x.runCtx)
+			if err != nil {
+				return
+			}
+			wg.Add(1)
+			go func() {
+				defer wg.Done()
+				io.Copy(io.Discard, s)
+			}()
+		}
+	}()
+	cs := &h3RawConnState{}
+	for i := range sc.Streams {
+		st, o := &sc.Streams[i], rs.obs[i]
+		if rs.ended || conn.Context().Err() != nil || x.runCtx.Err() != nil {
+			close(rs.srvDone[i])
+			continue
+		}
+		b, spans := x.rawBuild(i, st)
+		cutoff := h3RawCutoff(st, len(b))
+		b = b[:cutoff]
+		o.ran = true
+		var wr io.Writer
+		var finish func()
+		wait := x.rawWait()
+		if st.Kind == "uni" {
+			o.exp = x.rawExpectSrvUni(st, spans, cutoff, cs)
+			s, err := conn.OpenUniStreamSync(x.runCtx)
+			if err != nil {
+				o.openErr = err
+				close(rs.srvDone[i])
+				continue
+			}
+			wr = s
+			finish = func() {
+				switch st.End {
+				case "fin":
+					s.Close()
+				case "reset":
+					s.CancelWrite(0x102)
+				}
+			}
+		} else {
+			o.exp = x.rawExpectResp(i, st, spans, cutoff)
+			actx, cancel := context.WithTimeout(x.runCtx, wait+10*time.Second)
+			s, err := conn.AcceptStream(actx)
+			cancel()
+			if err != nil {
+				o.openErr = err
+				close(rs.srvDone[i])
+				continue
+			}
+			wr = s
+			wg.Add(1)
+			go func() {
+				defer wg.Done()
+				_, o.respErr = io.Copy(io.Discard, s) // the request; its error is the reset code the client used, if any
+			}()
+			finish = func() {
+				switch st.End {
+				case "fin":
+					s.Close()
+				case "reset":
+					s.CancelWrite(0x102)
+				}
+			}
+		}
+		if o.exp.label != "" {
+			x.res.Fault("raw-anomaly")
+		}
+		for k, off := 0, 0; off < len(b); k++ {
+			n := len(b) - off
+			if st.Split > 0 {
+				n = min(n, NewKRng(KMix(uint64(st.Split), uint64(k))).Pick(1, 1, 2, 3, 5, 17, 100, 1000, 1200, 5000))
+			}
+			m, err := wr.Write(b[off : off+n])
+			o.wrote += m
+			if err != nil {
+				o.writeErr = err
+				break
+			}
+			off += n
+			if st.GapUS > 0 && off < len(b) {
+				time.Sleep(time.Duration(st.GapUS) * time.Microsecond)
+			}
+		}
+		if st.End == "close" {
+			x.res.Fault("raw-peer-closes-connection")
+			conn.CloseWithError(0x100, "")
+		} else if o.writeErr == nil {
+			finish()
+		}
+		if st.Kind == "uni" {
+			select {
+			case <-conn.Context().Done():
+			case <-time.After(wait):
+			}
+		} else {
+			select {
+			case <-rs.cliDone[i]:
+				if o.exp.want == "conn" {
+					select {
+					case <-conn.Context().Done():
+					case <-time.After(wait):
+					}
+				}
+			case <-time.After(wait + 12*time.Second):
+			}
+		}
+		o.connErr = context.Cause(conn.Context())
+		if o.exp.want == "conn" || st.End == "close" {
+			rs.ended = true
+		}
+		close(rs.srvDone[i])
+	}
+	// keep the connection until the client driver is done, then close it
+	select {
+	case <-rs.allDone:
+	case <-x.runCtx.Done():
+	}
+	x.mu.Lock()
+	rs.cause = [2]error{nil, context.Cause(conn.Context())}
+	x.mu.Unlock()
+	conn.CloseWithError(0x100, "")
+}
+
+func (x *h3Run) runRawSrvClient(dial func(context.Context, string, *tls.Config, *quic.Config) (*quic.Conn, error), discard *slog.Logger) {
+	sc, o := x.sc, &x.sc.Opt
+	rs := x.raw
+	h3t := &http3.Transport{TLSClientConfig: x.nodes.CTLS, QUICConfig: x.nodes.CQ, Dial: dial, EnableDatagrams: o.CliDgram,
+		MaxResponseHeaderBytes: o.MaxRespHdr, DisableCompression: true}
+	if o.CliLogger {
+		h3t.Logger = discard
+	}
+	x.h3t = h3t
+	defer close(rs.allDone)
+	for i := range sc.Streams {
+		st := &sc.Streams[i]
+		if st.Kind == "uni" {
+			x.mu.Lock()
+			have := rs.conn != nil
+			x.mu.Unlock()
+			if have {
+				<-rs.srvDone[i]
+			}
+			continue
+		}
+		if rs.ended || x.runCtx.Err() != nil {
+			close(rs.cliDone[i])
+			continue
+		}
+		// the uni scripts in front of this one have been executed (if there is a connection to execute them on)
+		x.mu.Lock()
+		have := rs.conn != nil
+		x.mu.Unlock()
+		if have {
+			for j := 0; j < i; j++ {
+				<-rs.srvDone[j]
+			}
+			if rs.ended {
+				close(rs.cliDone[i])
+				continue
+			}
+		}
+		x.rawSrvRequest(i, st)
+		close(rs.cliDone[i])
+		<-rs.srvDone[i]
+	}
+	for i := range sc.Streams {
+		<-rs.srvDone[i]
+	}
+}
+
+func (x *h3Run) rawSrvRequest(i int, st *H3RawStream) {
+	co := x.raw.cli[i]
+	ctx, cancel := context.WithTimeout(x.runCtx, x.rawWait()+8*time.Second)
+	defer cancel()
+	ctx = httptrace.WithClientTrace(ctx, &httptrace.ClientTrace{Got1xxResponse: func(code int, h textproto.MIMEHeader) error {
+		co.early = append(co.early, h3EarlyObs{code, http.Header(h).Clone()})
+		return nil
+	}})
+	var body io.Reader
+	if i%2 == 1 {
+		body = bytes.NewReader(wPayload(KMix(x.sc.Seed, 0x5d, uint64(i)), 0, 3000))
+	}
+	req, err := http.NewRequestWithContext(ctx, []string{"GET", "POST"}[i%2], fmt.Sprintf("https://localhost/c/%d", i), body)
+	if err != nil {
+		return
+	}
+	co.started = true
+	resp, err := x.h3t.RoundTrip(req)
+	if err != nil {
+		co.rtErr, co.finished = err, true
+		return
+	}
+	co.status, co.hdr, co.cl = resp.StatusCode, resp.Header.Clone(), resp.ContentLength
+	key := KMix(x.sc.Seed, 0x5a, uint64(i))
+	zeros := 0
+	for k := 0; ; k++ {
+		buf := make([]byte, h3Chunk(int64(i)*13+5, k))
+		n, err := resp.Body.Read(buf)
+		if n > 0 {
+			zeros = 0
+			if co.bodyN+n > h3RawDataLen(st) || wCheckPayload(key, co.bodyN, buf[:n]) >= 0 {
+				x.flag(0, "raw server: response body bytes read by the client differ from the DATA payload sent", "script #%d: read of %d at %d", i, n, co.bodyN)
+			}
+			co.bodyN += n
+		}
+		if err == io.EOF {
+			co.bodyEOF, co.trl = true, resp.Trailer.Clone()
+			break
+		}
+		if err != nil {
+			co.bodyErr = err
+			break
+		}
+		if n == 0 {
+			if zeros++; zeros > 16 {
+				x.flag(4, "response body Read keeps returning 0 bytes without an error", "script #%d", i)
+				break
+			}
+		}
+	}
+	resp.Body.Close()
+	co.finished = true
+}
+
+func (x *h3Run) judgeRawSrv(cause [2]error) {
+	sc, res, rs := x.sc, x.res, x.raw
+	for i := range sc.Streams {
+		st, o, co := &sc.Streams[i], rs.obs[i], rs.cli[i]
+		if !o.ran || o.openErr != nil {
+			continue
+		}
+		e := o.exp
+		var ae *quic.ApplicationError
+		var se *quic.StreamError
+		kind, code, text := "none", uint64(0), "no reaction"
+		switch {
+		case o.connErr != nil && errors.As(o.connErr, &ae) && ae.Remote:
+			kind, code, text = "conn", uint64(ae.ErrorCode), "connection error "+h3ErrName(uint64(ae.ErrorCode))
+		case o.connErr != nil && !errors.As(o.connErr, &ae):
+			kind, text = "dead", "transport error"
+		case o.respErr != nil && errors.As(o.respErr, &se) && se.Remote && se.ErrorCode != 0x10c:
+			kind, code, text = "stream", uint64(se.ErrorCode), "stream error "+h3ErrName(uint64(se.ErrorCode))
+		case o.writeErr != nil && errors.As(o.writeErr, &se) && se.Remote && se.ErrorCode != 0x10c:
+			kind, code, text = "stream", uint64(se.ErrorCode), "stream error "+h3ErrName(uint64(se.ErrorCode))
+		case co.finished && co.rtErr == nil && co.bodyEOF:
+			kind, text = "response", "a complete response at the client"
+		case co.finished && (co.rtErr != nil || co.bodyErr != nil):
+			kind, text = "cerr", "an error at the client only"
+		}
+		what := fmt.Sprintf("raw server script #%d (%s type %d, %d frames, cut %d ppm, end %s)", i, st.Kind, st.UType, len(st.Frames), st.CutPPM, st.End)
+		res.TraceAdd(fmt.Sprintf("%d:%s:%d:%d:%d:%d:%v", i, kind, code, o.wrote, co.status, co.bodyN, co.bodyEOF))
+		res.Logf("%s: expect %s %v %q | got %s; wrote %d writeErr=%v reqErr=%v connErr=%v | client: finished=%v rtErr=%v status=%d bodyN=%d eof=%v bodyErr=%v early=%d trl=%v", what, e.want, e.codes, e.label, text,
+			o.wrote, o.writeErr, o.respErr, o.connErr, co.finished, co.rtErr, co.status, co.bodyN, co.bodyEOF, co.bodyErr, len(co.early), co.trl)
+		label := e.label
+		if label == "" {
+			label = "well-formed input"
+		}
+		res.Probe("rawsrv:" + label + " -> " + text)
+		if kind == "dead" {
+			continue
+		}
+		okCode := false
+		var names []string
+		for _, c := range e.codes {
+			okCode = okCode || c == code
+			names = append(names, h3ErrName(c))
+		}
+		switch e.want {
+		case "conn":
+			if !(kind == "conn" && okCode) && !(sc.Faulty && (kind == "none" || kind == "cerr")) {
+				x.flag(3, "raw server: "+label+": RFC 9114 requires connection error "+strings.Join(names, " or ")+", observed "+text, "%s", what)
+			}
+		case "stream":
+			if !(kind == "stream" && okCode) && !(sc.Faulty && (kind == "none" || kind == "cerr")) {
+				x.flag(3, "raw server: "+label+": RFC 9114 requires stream error "+strings.Join(names, " or ")+", observed "+text, "%s", what)
+			}
+			if kind == "response" {
+				x.flag(3, "raw server: "+label+": the client accepted the response", "%s", what)
+			}
+		case "cerr":
+			if kind == "response" {
+				x.flag(2, "raw server: "+label+": the client read the response to a clean EOF", "%s: %d bytes", what, co.bodyN)
+			}
+		case "ok":
+			if st.Kind == "uni" {
+				if kind == "conn" {
+					x.flag(3, "raw server: "+label+" on a unidirectional stream must be tolerated, observed "+text, "%s", what)
+				}
+				break
+			}
+			switch {
+			case kind == "response":
+				if co.status != 200 || co.hdr.Get("X-Raw-Srv") != strconv.Itoa(i) {
+					x.flag(0, "raw server: client saw a different status or header than the script sent", "%s: %d %v", what, co.status, co.hdr)
+				}
+				want := http.Header{}
+				for _, kv := range st.Hdr {
+					want.Add(kv.K, h3Val(kv))
+				}
+				got := co.hdr.Clone()
+				for _, k := range []string{"X-Raw-Srv", "Content-Type", "Content-Length"} {
+					delete(got, k)
+				}
+				if k, d := h3HdrDiff(want, got, nil); k != "" {
+					x.flag(0, "raw server: response header fields seen by the client differ from the script: "+k, "%s: %s", what, d)
+				}
+				if co.bodyN != e.bodyLen {
+					x.flag(0, "raw server: client reached a clean EOF at a different length than the DATA frames carried", "%s: %d vs %d", what, co.bodyN, e.bodyLen)
+				}
+				if len(co.early) != e.handler {
+					x.flag(0, "raw server: number of informational responses delivered differs from the script", "%s: %d vs %d", what, len(co.early), e.handler)
+				}
+				var wt http.Header
+				if e.trailers {
+					wt = http.Header{}
+					for _, f := range h3RawTrailer {
+						wt.Add(f[0], f[1])
+					}
+				}
+				if k, d := h3HdrDiff(wt, h3NonEmpty(co.trl), nil); k != "" {
+					x.flag(0, "raw server: response trailers seen by the client differ from the script: "+k, "%s: %s", what, d)
+				}
+			case sc.Faulty:
+			default:
+				x.flag(3, "raw server: well-formed response (unknown frames, arbitrary write boundaries) not delivered: "+text, "%s: rtErr=%v bodyErr=%v", what, co.rtErr, co.bodyErr)
+			}
+		}
+	}
+	x.judgeConn([2]error{cause[0], nil}, false)
+}
+
+func genH3RawSrv(r *KRng, sc *H3Scenario, tier string) {
+	sc.Opt.MaxRespHdr = 0
+	ctrl := H3RawStream{Kind: "uni", UType: 0, End: "open", Frames: []H3RawFrame{{K: "settings", V: r.Pick(0, 0, 2)}}}
+	if r.P(0.3) {
+		ctrl.Frames = append(ctrl.Frames, H3RawFrame{K: "unk", T: uint64(0x1f*r.N(50) + 0x21), N: r.N(30)})
+	}
+	if r.P(0.5) {
+		ctrl.Split = int64(r.U64()>>1) | 1
+		ctrl.GapUS = int64(r.Pick(0, 100, 5000))
+	}
+	if r.P(0.9) {
+		sc.Streams = append(sc.Streams, ctrl)
+	}
+	resp := func() H3RawStream {
+		st := h3GenRawReq(r)
+		st.Kind, st.Method, st.RespN, st.RespTrl = "resp", "", 0, false
+		hasData := false
+		var fr []H3RawFrame
+		for _, f := range st.Frames {
+			if f.K == "headers" {
+				for r.P(0.25) {
+					fr = append(fr, H3RawFrame{K: "headers", V: 10, W: r.N(4)})
+				}
+			}
+			hasData = hasData || f.K == "data"
+			fr = append(fr, f)
+		}
+		st.Frames = fr
+		if !hasData {
+			st.CLDecl = 0
+		}
+		var hd []H3KV
+		for _, kv := range st.Hdr {
+			if kv.K != "cookie" {
+				hd = append(hd, kv)
+			}
+		}
+		st.Hdr = hd
+		return st
+	}
+	n := r.Pick(1, 1, 2, 3, 5)
+	for i := 0; i < n; i++ {
+		switch r.N(10) {
+		case 0:
+			sc.Streams = append(sc.Streams, H3RawStream{Kind: "uni", UType: uint64(0x1f*r.N(100) + 0x21), End: []string{"open", "fin", "reset"}[r.N(3)], Frames: []H3RawFrame{{K: "unk", T: 0x21, N: r.N(200)}}})
+		case 1:
+			sc.Streams = append(sc.Streams, H3RawStream{Kind: "uni", UType: uint64(r.Pick(2, 3, 0x54, 0x41)), End: "open"})
+		default:
+			sc.Streams = append(sc.Streams, resp())
+		}
+	}
+	if r.P(0.6) {
+		st := resp()
+		pos := func() int { return r.N(len(st.Frames) + 1) }
+		insert := func(f H3RawFrame, at int) {
+			st.Frames = append(st.Frames[:at], append([]H3RawFrame{f}, st.Frames[at:]...)...)
+		}
+		switch r.N(16) {
+		case 0:
+			insert(H3RawFrame{K: "data", N: r.Pick(0, 10, 2000)}, 0)
+		case 1:
+			insert(H3RawFrame{K: []string{"settings", "goaway", "cancel_push", "max_push_id"}[r.N(4)]}, pos())
+		case 2:
+			insert(H3RawFrame{K: "reserved", T: uint64(r.Pick(2, 6, 8, 9)), N: r.Pick(0, 5, 100)}, pos())
+		case 3:
+			st.Frames = append(st.Frames, H3RawFrame{K: "trailers"}, H3RawFrame{K: "trailers"})
+		case 4:
+			st.Frames = append(st.Frames, H3RawFrame{K: "trailers"}, H3RawFrame{K: "data", N: r.Pick(0, 1, 1000)})
+		case 5:
+			for k := range st.Frames {
+				if st.Frames[k].K == "headers" && st.Frames[k].V == 0 {
+					st.Frames[k].V = r.Pick(1, 2, 3, 4, 7, 9)
+				}
+			}
+		case 6:
+			st.CLDecl = r.Pick(2, 3)
+			if h3RawDataLen(&st) == 0 {
+				st.Frames = append(st.Frames, H3RawFrame{K: "data", N: 100})
+			}
+		case 7, 8, 9:
+			st.CutPPM = 1 + r.N(999999)
+			st.End = []string{"fin", "fin", "reset", "close"}[r.N(4)]
+		case 10:
+			st = H3RawStream{Kind: "uni", UType: 0, End: "open", Frames: []H3RawFrame{{K: "settings"}}}
+		case 11:
+			st = H3RawStream{Kind: "uni", UType: 1, End: "open", Frames: []H3RawFrame{{K: "unk", T: 0x21, N: 3}}}
+		case 12:
+			st = H3RawStream{Kind: "uni", UType: uint64(r.Pick(2, 3)), End: "open"}
+			sc.Streams = append(sc.Streams, st)
+		default:
+			c := H3RawStream{Kind: "uni", UType: 0, End: "open"}
+			switch r.N(7) {
+			case 0:
+				c.Frames = []H3RawFrame{{K: []string{"data", "goaway", "headers"}[r.N(3)], N: 3}}
+			case 1:
+				c.Frames = []H3RawFrame{{K: "settings", V: 1}}
+			case 2:
+				c.Frames = []H3RawFrame{{K: "settings"}, {K: "settings", V: 2}}
+			case 3:
+				c.Frames = []H3RawFrame{{K: "settings"}, {K: []string{"data", "headers", "reserved"}[r.N(3)], T: 6, N: 4}}
+			case 4:
+				c.Frames = []H3RawFrame{{K: "settings"}}
+				c.End = []string{"fin", "reset"}[r.N(2)]
+			case 5:
+				c.Frames = []H3RawFrame{{K: "settings"}, {K: "unk", T: 0x21, N: 40}}
+				c.CutPPM = 1 + r.N(999999)
+				c.End = []string{"fin", "reset", "open"}[r.N(3)]
+			case 6:
+				c.Frames = []H3RawFrame{{K: "settings"}, {K: "max_push_id"}}
+			}
+			if len(sc.Streams) > 0 && sc.Streams[0].Kind == "uni" && sc.Streams[0].UType == 0 {
+				sc.Streams = sc.Streams[1:]
+			}
+			st = c
+		}
+		at := r.N(len(sc.Streams) + 1)
+		if r.P(0.5) {
+			at = len(sc.Streams)
+		}
+		sc.Streams = append(sc.Streams[:at], append([]H3RawStream{st}, sc.Streams[at:]...)...)
+	}
+	// the client driver needs at least one request to make the connection exist
+	hasResp := false
+	for i := range sc.Streams {
+		hasResp = hasResp || sc.Streams[i].Kind == "resp"
+	}
+	if !hasResp {
+		sc.Streams = append(sc.Streams, resp())
 	}
 }
